@@ -79,6 +79,33 @@ type pipeLayer struct {
 	out, in   bytes.Buffer
 	failAfter int
 	dials     int
+	buffered  bool // the network between the two ends holds bytes in transit (as a socket buffer does)
+}
+
+// pump moves bytes from src to dst through an unbounded queue, so that a write at one end never
+// waits for the reader at the other end
+func pump(src, dst net.Conn) {
+	q := make(chan []byte, 4096)
+	go func() {
+		for b := range q {
+			if _, err := dst.Write(b); err != nil {
+				break
+			}
+		}
+		_ = dst.Close()
+		_ = src.Close()
+	}()
+	buf := make([]byte, 32*1024)
+	for {
+		n, err := src.Read(buf)
+		if n > 0 {
+			q <- append([]byte{}, buf[:n]...)
+		}
+		if err != nil {
+			close(q)
+			return
+		}
+	}
 }
 
 type pipeAddr string
@@ -102,6 +129,13 @@ func (l *pipeLayer) Dial(address raft.ServerAddress, timeout time.Duration) (net
 		return nil, errors.New("no such peer")
 	}
 	a, b := net.Pipe()
+	if l.buffered {
+		// a <-> a2  ==pumps==  b2 <-> b
+		a2, b2 := b, net.Conn(nil)
+		b2, b = net.Pipe()
+		go pump(a2, b2)
+		go pump(b2, a2)
+	}
 	select {
 	case p.accept <- b:
 	case <-time.After(timeout):
@@ -301,6 +335,11 @@ func main() {
 	tM := raft.NewNetworkTransportWithConfig(&raft.NetworkTransportConfig{Stream: lm, MaxPool: 2, Timeout: 3 * time.Second, MsgpackUseNewTimeFormat: true})
 	defer tN.Close()
 	defer tM.Close()
+	// a sender with a short timeout and room for several pipelined requests in flight
+	lp := &pipeLayer{addr: "P", accept: make(chan net.Conn, 16), peers: map[string]*pipeLayer{}, closed: make(chan struct{}), failAfter: -1, buffered: true}
+	lp.peers["B"] = lb
+	tP := raft.NewNetworkTransportWithConfig(&raft.NetworkTransportConfig{Stream: lp, MaxPool: 2, Timeout: 150 * time.Millisecond, MaxRPCsInFlight: 8})
+	defer tP.Close()
 	// responder on B: script set per exchange
 	type script struct {
 		resp  interface{}
@@ -336,7 +375,7 @@ func main() {
 	fh, _ := os.Create(*out)
 	w := bufio.NewWriter(fh)
 	st := &stats{Engine: "wire", Hist: map[string]int{}}
-	st.Rule = "two real NetworkTransports over net.Pipe with a byte recorder: AppendEntries 37% + 8% between transports whose MsgpackUseNewTimeFormat options differ or are both set (byte slices nil/empty/around the fixstr-str16 and 64 KiB boundaries, integers around every width boundary, 0..3 or 15..17 entries, zero and non-zero times, response with or without an error string), pipelines of 2..8 AppendEntries with random handler delays 15%, RequestVote / RequestPreVote / TimeoutNow 20%, InstallSnapshot with a streamed body of 0..100000 bytes 10%, connection cut after k bytes of the request 10%; non-trivial = a request with at least one entry or a body, or a pipeline"
+	st.Rule = "two real NetworkTransports over net.Pipe with a byte recorder: AppendEntries 37% + 8% between transports whose MsgpackUseNewTimeFormat options differ or are both set (byte slices nil/empty/around the fixstr-str16 and 64 KiB boundaries, integers around every width boundary, 0..3 or 15..17 entries, zero and non-zero times, response with or without an error string), pipelines of 2..8 AppendEntries with random handler delays 15%, pipelines (8 requests in flight allowed, sender timeout 150 ms) whose oldest request times out with 2..5 more in flight behind it 4%, RequestVote / RequestPreVote / TimeoutNow 20%, InstallSnapshot with a streamed body of 0..100000 bytes 10%, connection cut after k bytes of the request 10%; non-trivial = a request with at least one entry or a body, or a pipeline"
 	take := func() ([]interface{}, [][]byte) {
 		smu.Lock()
 		defer smu.Unlock()
@@ -453,6 +492,59 @@ func main() {
 			take()
 			fmt.Fprintf(w, "PL %d\n%d %d\n", m, b2i(okOrder), b2i(okOrder))
 			st.Hist["pipeline"]++
+			st.Distinct++
+		case x < 64: // a pipeline whose oldest request times out with several more in flight behind it
+			pl, err := tP.AppendEntriesPipeline("B", "B")
+			if err != nil {
+				fmt.Fprintf(w, "PF 0\n0 0 pipeline-error\n")
+				break
+			}
+			m := 3 + rng.Intn(4)
+			smu.Lock()
+			scripts = nil
+			for i := 0; i < m; i++ {
+				wr := &raft.AppendEntriesResponse{RPCHeader: raft.RPCHeader{ProtocolVersion: 3}, Term: 7, LastLog: uint64(2000 + i), Success: true}
+				d := time.Duration(0)
+				if i == 0 {
+					d = 400 * time.Millisecond // longer than the sender's timeout
+				}
+				scripts = append(scripts, script{resp: wr, delay: d})
+			}
+			smu.Unlock()
+			sent := 0
+			for i := 0; i < m; i++ {
+				rq := &raft.AppendEntriesRequest{RPCHeader: raft.RPCHeader{ProtocolVersion: 3}, Term: 7, PrevLogEntry: uint64(i)}
+				if _, err := pl.AppendEntries(rq, &raft.AppendEntriesResponse{}); err != nil {
+					break
+				}
+				sent++
+			}
+			// every request that was accepted completes, in send order, with an error or its own response
+			delivered, paired := 0, true
+			deadline := time.After(3 * time.Second)
+		collect:
+			for delivered < sent {
+				select {
+				case f := <-pl.Consumer():
+					if f.Request().PrevLogEntry != uint64(delivered) {
+						paired = false
+					}
+					if f.Error() == nil && f.Response().LastLog != 2000+f.Request().PrevLogEntry {
+						paired = false
+					}
+					delivered++
+				case <-deadline:
+					break collect
+				}
+			}
+			_ = pl.Close()
+			time.Sleep(450 * time.Millisecond) // the receiver finishes its delayed answer
+			take()
+			smu.Lock()
+			scripts = nil
+			smu.Unlock()
+			fmt.Fprintf(w, "PF %d %d\n%d %d\n", m, sent, b2i(delivered == sent), b2i(paired))
+			st.Hist["pipeline-timeout-with-requests-in-flight"]++
 			st.Distinct++
 		case x < 80: // votes, timeout-now
 			var recvOK, respOK bool
